@@ -49,9 +49,18 @@ def run_sharded(ctx, cmd, cases, shards, extra_args=None, timeout=1700, tag=""):
                              stdout=lg, stderr=subprocess.STDOUT, env=env, cwd=ctx.tmp)
         procs.append((p, t, r, lg))
     traces, results = [], []
-    for p, t, r, lg in procs:
+    for s, (p, t, r, lg) in enumerate(procs):
         rc = p.wait()
         lg.close()
+        for again in range(2):
+            if rc == 0:
+                break
+            # a shard that died at start-up (e.g. its listener port was taken meanwhile) is started again once or twice
+            vlib.log("[driver] %s shard %d died rc=%s, restarting" % (cmd, s, rc))
+            with open(lg.name, "a") as lg2:
+                rc = subprocess.run(["timeout", "-k", "10", str(timeout), binary, "-cases", cpath, "-trace", t, "-results", r,
+                                     "-shard", str(s), "-shards", str(shards)] + (extra_args or []),
+                                    stdout=lg2, stderr=subprocess.STDOUT, env=env, cwd=ctx.tmp).returncode
         if rc != 0:
             raise vlib.Inconclusive("driver %s shard died rc=%s\n%s" % (cmd, rc, vlib.tail(lg.name)))
         traces.append(t)
